@@ -140,7 +140,7 @@ def add_float_impls(u, which=('Clamp', 'IsBetween', 'Lerp')):
         u.take_impl(P, h, {'wrapped': C(ensures=['res.v@ == ' + w]), 'wrapped_between': C(ensures=['res.v@ == ' + wb]),
                            'pingpong': C(ensures=['res.v@ == ' + pp],
                                          # D2: a ghost `ensures` on the closure (Verus needs closure contracts spelled out)
-                                         body_subst=[('|| Self::from(upper)', '|| -> (r: R) ensures r == upper { Self::from(upper) }')])},
+                                         closures=[('||', '|| -> (r: R) ensures r == upper', '')])},
                     tparams=F)
 
 
